@@ -20,7 +20,7 @@ fn gen(rng: &mut Rng, k: usize) -> (&'static str, String) {
   let strs = ["''", "'$'", "'$$$'", "'µA'", "'$A'", "'$$$A'", "'a'", "'('", "'[a-'", "'\\\\'", "'\\u0000'", "'日本'", "'$1'", "'${'", "~", "[]", "{}", "12", "'*'", "'(?P<x'"];
   let n = |rng: &mut Rng| rng.pick(&nums).to_string();
   let st = |rng: &mut Rng| rng.pick(&strs).to_string();
-  match k % 18 {
+  match k % 20 {
     0 => ("", base_rule("r", &format!("  kind: number\n  nthChild: {}\n", n(rng)))),
     1 => ("", base_rule("r", &format!("  kind: number\n  nthChild: {}\n", ["\"99999999999n+1\"", "\"-n-2147483647\"", "\"2147483647n+2147483647\"", "\"n--1\"", "\"++n\"", "\"\"", "\"n n\"", "\"-2147483648n-2147483648\"", "\"1n+\"", "\"０n+１\""][rng.below(10)]))),
     2 => ("", base_rule("r", &format!("  kind: number\n  nthChild:\n    position: {}\n    reverse: {}\n    ofRule:\n      kind: {}\n", n(rng), ["true", "false", "1", "''"][rng.below(4)], ["number", "nope", "''", "1"][rng.below(4)]))),
@@ -33,7 +33,7 @@ fn gen(rng: &mut Rng, k: usize) -> (&'static str, String) {
     // reference cycles through every operator
     9 => ("", format!("{}utils:\n  A:\n    {}:\n      - matches: B\n  B:\n    not:\n      matches: A\n", base_rule("r", "  matches: A\n  kind: number\n"), ["all", "any"][rng.below(2)])),
     10 => ("", format!("{}utils:\n  U:\n    nthChild:\n      position: 1\n      ofRule:\n        matches: U\n", base_rule("r", "  matches: U\n  kind: number\n"))),
-    11 => ("relational-util-cycle", format!("{}utils:\n  A:\n    {}:\n      matches: B\n      stopBy: end\n  B:\n    {}:\n      matches: A\n      stopBy: end\n", base_rule("r", "  kind: number\n  matches: A\n"), ["inside", "follows"][k / 18 % 2], ["has", "precedes"][k / 18 % 2])),
+    11 => ("relational-util-cycle", format!("{}utils:\n  A:\n    {}:\n      matches: B\n      stopBy: end\n  B:\n    {}:\n      matches: A\n      stopBy: end\n", base_rule("r", "  kind: number\n  matches: A\n"), ["inside", "follows"][k / 20 % 2], ["has", "precedes"][k / 20 % 2])),
     12 => ("", format!("{}transform:\n  A1:\n    substring: {{source: $B1}}\n  B1:\n    substring: {{source: {}}}\n", base_rule("r", "  pattern: foo($A, $B)\n"), ["$A1", "$B1", "$C1", "$A"][rng.below(4)])),
     13 => ("", format!("{}rewriters:\n- id: rw\n  rule: {{kind: number}}\n  fix:\n    template: x\n    expandStart: {{regex: '\\('}}\n    expandEnd: {{regex: '\\)'}}\ntransform:\n  R:\n    rewrite:\n      source: $$$A\n      rewriters: [rw{}]\n      joinBy: {}\nfix: bar($R)\n", base_rule("r", "  pattern: foo($$$A)\n"), ["", ", rw", ", nope"][rng.below(3)], st(rng))),
     // severity off on stdin-like single rule; structural garbage
@@ -61,6 +61,14 @@ fn gen(rng: &mut Rng, k: usize) -> (&'static str, String) {
       }
       ("", s)
     }
+    18 => ("rewriter-self-application", format!("{}rewriters:\n- id: rw\n  rule: {{pattern: $B, kind: {}}}\n  transform:\n    C: {{rewrite: {{source: $B, rewriters: [rw]}}}}\n  fix: $C\ntransform:\n  D: {{rewrite: {{source: {}, rewriters: [rw]}}}}\nfix: $D\n",
+      base_rule("r", "  pattern: foo($A, $$$REST)\n"), ["number", "identifier"][k / 20 % 2], ["$A", "$$$REST"][k / 40 % 2])),
+    // recursive rewriters that do descend (legitimate) and utilities recursive through one relational direction
+    19 => ("", if k / 20 % 2 == 0 {
+        format!("{}rewriters:\n- id: rw\n  rule: {{pattern: '[$$$ITEMS]'}}\n  transform:\n    C: {{rewrite: {{source: $$$ITEMS, rewriters: [rw], joinBy: '+'}}}}\n  fix: ($C)\ntransform:\n  D: {{rewrite: {{source: $$$A, rewriters: [rw]}}}}\nfix: $D\n", base_rule("r", "  pattern: foo($$$A)\n"))
+      } else {
+        format!("{}utils:\n  U:\n    any:\n      - kind: number\n      - has:\n          matches: U\n          stopBy: end\n", base_rule("r", "  kind: call_expression\n  matches: U\n"))
+      }),
     _ => ("", format!("{}labels:\n  A:\n    style: {}\n    message: {}\nmetadata:\n  x: {}\nfiles: [{}]\nignores: {}\n", base_rule("r", "  pattern: foo($A, $B)\n"), ["primary", "secondary", "nope"][rng.below(3)], st(rng), n(rng), st(rng), st(rng))),
   }
 }
@@ -82,7 +90,7 @@ pub fn run(o: &Opts) {
     let crashed = r.timed_out || r.code.is_none() || matches!(r.code, Some(101) | Some(134) | Some(139));
     let accepted = matches!(r.code, Some(0) | Some(1));
     out.count(if crashed { "outcome:crash" } else if accepted { "outcome:accepted-and-scanned" } else { "outcome:rejected-with-message" });
-    out.count(&format!("generator:{}", k % 18));
+    out.count(&format!("generator:{}", k % 20));
     if accepted {
       out.nontrivial(&yaml);
       if !sampled {
@@ -106,6 +114,12 @@ pub fn run(o: &Opts) {
     ("missing rule dir", vec![("sgconfig.yml", "ruleDirs: [nope]\nutilDirs: [nope2]\n".into())], vec!["scan"]),
     ("custom language without library", vec![("sgconfig.yml", "ruleDirs: [rules]\ncustomLanguages:\n  mylang:\n    libraryPath: nope.so\n    extensions: [ml]\n".into()), ("rules/r.yml", base_rule("r", "  pattern: foo($A)\n"))], vec!["scan"]),
     ("util file garbage", vec![("sgconfig.yml", "ruleDirs: [rules]\nutilDirs: [utils]\n".into()), ("rules/r.yml", base_rule("r", "  kind: number\n  matches: g\n")), ("utils/g.yml", "id: g\nlanguage: TypeScript\nrule:\n  matches: g\n".into())], vec!["scan"]),
+    ("global cycle through a local utility", vec![("sgconfig.yml", "ruleDirs: [rules]\nutilDirs: [utils]\n".into()), ("rules/r.yml", base_rule("r", "  kind: number\n  matches: g1\n")),
+      ("utils/g1.yml", "id: g1\nlanguage: TypeScript\nrule:\n  matches: loc\nutils:\n  loc:\n    matches: g2\n".into()), ("utils/g2.yml", "id: g2\nlanguage: TypeScript\nrule:\n  matches: g1\n".into())], vec!["scan"]),
+    ("global cycle through a constraint", vec![("sgconfig.yml", "ruleDirs: [rules]\nutilDirs: [utils]\n".into()), ("rules/r.yml", base_rule("r", "  kind: number\n  matches: g1\n")),
+      ("utils/g1.yml", "id: g1\nlanguage: TypeScript\nrule:\n  pattern: $A\nconstraints:\n  A:\n    matches: g2\n".into()), ("utils/g2.yml", "id: g2\nlanguage: TypeScript\nrule:\n  matches: g1\n".into())], vec!["scan"]),
+    ("global cycle through nthChild.ofRule", vec![("sgconfig.yml", "ruleDirs: [rules]\nutilDirs: [utils]\n".into()), ("rules/r.yml", base_rule("r", "  kind: number\n  matches: g1\n")),
+      ("utils/g1.yml", "id: g1\nlanguage: TypeScript\nrule:\n  nthChild:\n    position: 1\n    ofRule:\n      matches: g2\n".into()), ("utils/g2.yml", "id: g2\nlanguage: TypeScript\nrule:\n  matches: g1\n".into())], vec!["scan"]),
     ("empty files", vec![("sgconfig.yml", "".into()), ("rules/r.yml", "".into())], vec!["scan"]),
     ("test file garbage", vec![("sgconfig.yml", "ruleDirs: [rules]\ntestConfigs:\n  - testDir: tests\n".into()), ("rules/r.yml", base_rule("r", "  pattern: foo($A)\n")), ("tests/r-test.yml", "id: r\nvalid: 12\ninvalid: {a: b}\n".into())], vec!["test"]),
   ];
@@ -125,7 +139,7 @@ pub fn run(o: &Opts) {
         json!({"stream": "c11-project", "case": name}));
     }
   }
-  out.finish("rule documents from 18 generators (extreme / non-numeric nthChild and substring numbers, An+B strings at the i32 limits, empty / multi-byte / sigil-only transform sources, invalid regexes in regex / replace / expansions, \
+  out.finish("rule documents from 20 generators (extreme / non-numeric nthChild and substring numbers, An+B strings at the i32 limits, empty / multi-byte / sigil-only transform sources, invalid regexes in regex / replace / expansions, \
               convert on multi-byte acronyms, ranges, reference cycles through all/any/not/matches, nthChild.ofRule and relational rules, cyclic and dangling transformations, rewriters with expanding fixes and unknown ids, \
               textual mutations of a valid rule, random keys and types, labels / metadata / globs) each loaded and run on a source (file and --stdin) by the debug-build CLI in a child process under a 15 s limit; \
               plus project-level cases (orphan snapshot, unknown test id, garbage sgconfig / test / util files, missing directories, custom language without library). \
